@@ -5,7 +5,7 @@ V = os.path.dirname(os.path.dirname(os.path.abspath(__file__)))
 rows = ['| property | seeded change needs | reported by (obligations) | caught |', '|---|---|---|---|']
 for d in sorted(glob.glob(os.path.join(V, 'seeded', 'C*'))):
     m = json.load(open(os.path.join(d, 'meta.json')))
-    rows.append('| %s | %s | %s | %s |' % (os.path.basename(d), m.get('needs', '').replace('|', '/'), ', '.join('`%s`' % x for x in m.get('caught_by', [])) or '-', {True: 'yes', False: '**no**'}.get(m.get('caught'), 'not run')))
+    rows.append('| %s | %s | %s | %s |' % (os.path.basename(d), m.get('needs', '').replace('|', '/'), ', '.join('`%s`' % x for x in m.get('caught_by', [])) or '-', 'obsolete: no longer breaks the property on the repaired tree' if m.get('obsolete') else {True: 'yes', False: '**no**'}.get(m.get('caught'), 'not run')))
 p = os.path.join(V, 'DESIGN.md'); s = open(p).read()
 tbl = '<!-- SEED_TABLE_BEGIN -->\n' + '\n'.join(rows) + '\n<!-- SEED_TABLE_END -->'
 if 'SEED_TABLE_PLACEHOLDER' in s: s = s.replace('SEED_TABLE_PLACEHOLDER', tbl)
